@@ -7,6 +7,11 @@ if ! PYTHONPATH="$HERE/.deps" /venv/bin/python -c 'import icontract' 2>/dev/null
     PIP_NO_INDEX=1 /venv/bin/pip install --quiet --no-index --find-links /opt/veriftools/wheels \
         --target "$HERE/.deps" icontract >/dev/null 2>&1 || echo "icontract not installable: contracts fall back to plain wrappers"
 fi
+# the executor checks start tens of thousands of short-lived processes; with
+# the default pid_max of 32768 pids are recycled within seconds, and RP's own
+# kill sequence (SIGTERM, 0.1 s, SIGKILL to the process group id) can then hit
+# an unrelated, freshly started task.  Give the pid space room (best effort).
+[ -w /proc/sys/kernel/pid_max ] && echo 4194304 > /proc/sys/kernel/pid_max 2>/dev/null
 chmod +x "$HERE/check" "$HERE"/fixtures/* 2>/dev/null
 /venv/bin/python -m compileall -q rpverif >/dev/null 2>&1
 exit 0
